@@ -16,12 +16,12 @@ import (
 
 // Driver explores the converters of a generated corpus.
 type Driver struct {
-	C       *Corpus
-	L       *engine.Loaded
-	B       Bounds
-	Workers int
-	LoadErr string
-	Unwind  int
+	C        *Corpus
+	L        *engine.Loaded
+	B        Bounds
+	Workers  int
+	LoadErr  string
+	Unwind   int
 	MaxPaths int
 }
 
@@ -155,18 +155,18 @@ func (d *Driver) target(cv *Conv) (*Target, error) {
 
 // Finding is a violated (or inconclusive) obligation on one path.
 type Finding struct {
-	Conv      string            `json:"conv"`
-	Family    string            `json:"family"`
-	Kind      string            `json:"kind"` // "value", "panic", "sharing", ...
-	Path      string            `json:"path"`
-	Note      string            `json:"note"`
-	Input     string            `json:"input"`
-	Model     map[string]uint64 `json:"model,omitempty"`
-	Decisions string            `json:"decisions"`
-	Inconclusive bool           `json:"inconclusive,omitempty"`
-	Replayed  string            `json:"replayed,omitempty"`
-	Replay    *ReplayInfo       `json:"replay,omitempty"`
-	Trace     []Decision        `json:"-"`
+	Conv         string            `json:"conv"`
+	Family       string            `json:"family"`
+	Kind         string            `json:"kind"` // "value", "panic", "sharing", ...
+	Path         string            `json:"path"`
+	Note         string            `json:"note"`
+	Input        string            `json:"input"`
+	Model        map[string]uint64 `json:"model,omitempty"`
+	Decisions    string            `json:"decisions"`
+	Inconclusive bool              `json:"inconclusive,omitempty"`
+	Replayed     string            `json:"replayed,omitempty"`
+	Replay       *ReplayInfo       `json:"replay,omitempty"`
+	Trace        []Decision        `json:"-"`
 	// ReplayDir: material of a native replay already performed (Replayed holds its verdict)
 	ReplayDir string `json:"-"`
 }
@@ -190,27 +190,27 @@ type ConvReport struct {
 
 // PathCtx is what a property check sees on one path.
 type PathCtx struct {
-	R      *engine.Run
-	D      *Driver
-	Conv   *Conv
-	T      *Target
-	SB     *SymBuilder
-	Args   []engine.Value // declared arguments (without receiver)
-	Src    engine.Value
-	SrcT   types.Type
-	SrcIdx int
-	Ctx    []int // indices of context params
-	TgtIdx int   // index of update target param or -1
-	Ret    engine.Value
-	RetT   types.Type
-	Err    engine.Value // error result or nil
-	HasErr bool
-	Panic  *engine.TargetPanic
-	Calls  *CallLog
-	Rep    *ConvReport
-	Writes []*engine.Value
+	R       *engine.Run
+	D       *Driver
+	Conv    *Conv
+	T       *Target
+	SB      *SymBuilder
+	Args    []engine.Value // declared arguments (without receiver)
+	Src     engine.Value
+	SrcT    types.Type
+	SrcIdx  int
+	Ctx     []int // indices of context params
+	TgtIdx  int   // index of update target param or -1
+	Ret     engine.Value
+	RetT    types.Type
+	Err     engine.Value // error result or nil
+	HasErr  bool
+	Panic   *engine.TargetPanic
+	Calls   *CallLog
+	Rep     *ConvReport
+	Writes  []*engine.Value
 	Globals []*ssa.Global
-	Pre    engine.Value // deep snapshot of *target before the call (update methods)
+	Pre     engine.Value // deep snapshot of *target before the call (update methods)
 	SrcSnap engine.Value
 	ArgsPre []engine.Value // deep clone of the arguments before the call (aliasing preserved)
 }
@@ -303,8 +303,8 @@ func (d *Driver) Explore(convs []*Conv, check CheckFn, opt ExploreOpt) []*ConvRe
 }
 
 type ExploreOpt struct {
-	Alias       bool
-	TrackWrites bool
+	Alias        bool
+	TrackWrites  bool
 	NoMapPermute bool
 }
 
@@ -347,12 +347,12 @@ func (d *Driver) exploreOne(cv *Conv, check CheckFn, opt ExploreOpt) *ConvReport
 		unwind = 256
 	}
 	cfg := engine.Config{
-		Name:     cv.ID,
-		Unwind:   unwind,
-		MaxDepth: 40,
-		MaxPaths: d.MaxPaths,
-		Workers:  1,
-		Inline:   d.emittedFile,
+		Name:         cv.ID,
+		Unwind:       unwind,
+		MaxDepth:     40,
+		MaxPaths:     d.MaxPaths,
+		Workers:      1,
+		Inline:       d.emittedFile,
 		NoMapPermute: opt.NoMapPermute,
 	}
 	cfg.External = func(r *engine.Run, fn *ssa.Function, args []engine.Value, site ssa.Instruction) (engine.Value, bool) {
